@@ -27,7 +27,7 @@ MAXTASKS = 20
 
 
 def bounds(tier):
-    return {"programs": "one-instruction programs of all classes, all L=2 skeletons over the alphabet" + ("" if tier == "quick" else ", L=3 over the reduced alphabet"), "toy_steps": 6, "reload_pairs": "all ordered pairs of the text list, 3 cache configurations"}
+    return {"programs": "one-instruction programs of all classes, all L=2 skeletons over the alphabet" + ("" if tier == "quick" else ", L=3 over the reduced alphabet"), "toy_steps": 2 if tier == "quick" else 3, "reload_pairs": "all ordered pairs of the text list, 3 cache configurations"}
 
 
 def claim_same(e, tag, A, B):
@@ -133,13 +133,13 @@ def h_exit_midrun(e, mnems, mode, k):
     e.observe("pc", A["pc"])
 
 
-def h_toy_run(e, steps=6):
+def h_toy_run(e, steps=6, opcode=None):
     """TOY: run() == step() until done, from an arbitrary state whose program area is small"""
     from symx.state import ToyInputs, mk_toy
     from symx.core import PathCut
     from checks.c20 import snapshot as toy_snapshot
 
-    inp = ToyInputs(e)
+    inp = ToyInputs(e, ir_opcode=opcode)
     a, sa = mk_toy(e, inp)
     b, sb = mk_toy(e, inp)
     q = e.int("q", 0, 4095)
@@ -348,7 +348,8 @@ def jobs(tier, seed):
         for sk in (["add", "lw", "beq"], ["jal", "addi", "sw"], ["ecall", "add", "add"], ["lw", "jalr", "add"]):
             for k in (1, 2, 3, 4):
                 out.append(dict(common, label="exit%s-%d:%s" % (ms, k, ",".join(sk)), harness="exit_midrun", args={"mnems": sk, "mode": mode, "k": k}, cost=8, validate_every=3))
-    out.append(dict(common, label="toy-run", harness="toy_run", args={"steps": 3 if tier == "quick" else 4}, cost=400, validate_every=20))
+    for k in range(13):
+        out.append(dict(common, label="toy-run-op%d" % k, harness="toy_run", args={"steps": 2 if tier == "quick" else 3, "opcode": k}, cost=100, validate_every=10))
     for kind in MODES + ["toy"]:
         for it in range(len(EMPTY_TEXTS)):
             out.append({"label": "empty-%s-%d" % (kind[:4], it), "harness": "empty", "args": {"kind": kind, "it": it}, "cost": 1})
